@@ -398,18 +398,21 @@ class Ctx:
         known = load_known()
         violations = 0
         lines = []
-        # concrete failing inputs
-        reported_known = set()
+        # every listed finding of this property is printed on every run (observed in this run or not);
+        # an observed failing input that matches none of them is a violation
+        for k in known:
+            if k.get("property") == self.pid:
+                lines.append("KNOWN-FINDING: property=%s %s" % (self.pid, k["what"]))
+        observed_known = set()
         for fd in self.findings:
             k = match_known(known, self.pid, fd)
             if k is not None:
-                if k["key"] not in reported_known:
-                    reported_known.add(k["key"])
-                    lines.append("KNOWN-FINDING: property=%s %s" % (self.pid, k["what"]))
+                observed_known.add(k["key"])
                 continue
             violations += 1
             if violations <= 3:
                 lines.append("VIOLATION property=%s replay=%s" % (self.pid, fd["replay"]))
+        self.info.append("known findings observed in this run: %s" % (sorted(observed_known) or "none"))
         if self.broken and violations == 0:
             # a proof or a tie no longer checks and no concrete failing input was found
             path = self.write_replay("broken", {
